@@ -212,6 +212,62 @@ pub fn coords_arg(rng: &mut Rng, specs: &[SrcSpec], extra: usize) -> String {
 	v.iter().map(|(x, y, z)| format!("{x},{y},{z}")).collect::<Vec<_>>().join(";")
 }
 
+
+/// from_vectortiles_merged over sources whose tiles carry DIFFERENT layer names: repeated lookups
+/// and the stream must deliver identical bytes (merge_tiles collects the layers in a HashMap).
+fn probe_merge_layers(rt: &tokio::runtime::Runtime, out: &mut Out, rng: &mut Rng) {
+	use crate::memsrc::MemSource;
+	use futures::future::BoxFuture;
+	use std::sync::Arc;
+	use versatiles_core::types::*;
+	use versatiles_pipeline::PipelineFactory;
+	let n_layers = rng.range(2, 5) as usize;
+	let c = TileCoord3::new(1, 1, 2).unwrap();
+	let srcs: Vec<MemSource> = (0..n_layers)
+		.map(|i| MemSource::new(&format!("s{i}"), TileFormat::PBF, TileCompression::Uncompressed, vec![(c, make_vt(&[i as u64 + 1], &format!("layer{i}")))]))
+		.collect();
+	let srcs = Arc::new(srcs);
+	let s2 = srcs.clone();
+	let cb = Box::new(move |filename: String| -> BoxFuture<'static, anyhow::Result<Box<dyn TilesReaderTrait>>> {
+		let s2 = s2.clone();
+		Box::pin(async move {
+			let base = std::path::Path::new(&filename).file_name().unwrap().to_str().unwrap().to_string();
+			let i: usize = base.trim_start_matches('s').parse()?;
+			Ok(Box::new(s2[i].clone()) as Box<dyn TilesReaderTrait>)
+		})
+	});
+	let f = PipelineFactory::default(std::path::Path::new(""), cb);
+	let vpl = format!("from_vectortiles_merged [ {} ]", (0..n_layers).map(|i| format!("from_container filename=\"s{i}\"")).collect::<Vec<_>>().join(", "));
+	let r = catch(|| {
+		rt.block_on(async {
+			let op = f.operation_from_vpl(&vpl).await?;
+			let mut blobs: Vec<Vec<u8>> = vec![];
+			for _ in 0..6 {
+				blobs.push(op.get_tile_data(&c).await?.map(|b| b.into_vec()).unwrap_or_default());
+			}
+			let st = op.get_tile_stream(TileBBox::new(2, 0, 0, 3, 3)?).await.collect().await;
+			for (_, b) in st {
+				blobs.push(b.into_vec());
+			}
+			Ok::<Vec<Vec<u8>>, anyhow::Error>(blobs)
+		})
+	});
+	out.eval(&format!("merge-layers {n_layers} {}", rng.next()), true);
+	out.count("probe_merge_layers");
+	match r {
+		Ok(Ok(blobs)) => {
+			let same = blobs.iter().all(|b| *b == blobs[0]) && blobs.len() == 7;
+			out.oracle(
+				same,
+				"C02 merged tile with several layer names: repeated lookups / the stream deliver different bytes for the same tile",
+				serde_json::json!({"kind": "merge_layer_order_nondeterministic"}),
+				serde_json::json!({"vpl": vpl, "layers": n_layers, "case": "probe"}),
+			);
+		}
+		_ => out.oracle(false, "C02 merged multi-layer probe failed to run", serde_json::json!({"kind": "probe_failed"}), serde_json::json!({"vpl": vpl})),
+	}
+}
+
 pub fn run(args: &Args) {
 	quiet_panics();
 	let rt = runtime();
@@ -321,6 +377,9 @@ pub fn run(args: &Args) {
 			}
 		}
 		w.cleanup();
+	}
+	for _ in 0..args.n(6, 30) {
+		probe_merge_layers(&rt, &mut out, &mut rng);
 	}
 	let _ = std::fs::remove_dir_all(&scratch);
 	out.finish();
